@@ -214,7 +214,7 @@ uint64_t vrt_counter_get(int id)
     return __atomic_load_n(&g_counters[id].v, __ATOMIC_RELAXED);
 }
 
-static char g_signature[2048];
+static char g_signature[8192];
 void vrt_signature_add(const char *fmt, ...)
 {
     va_list ap;
